@@ -87,6 +87,48 @@ def restore (q reply : Msg) : Msg := { reply with id := q.id }
 /-- what goes on the wire: the query with the assigned id (0 for DoH / DoQ) -/
 def rewrite (q : Msg) (wid : Nat) : Msg := { q with id := wid }
 
+/-! ### DoH: one HTTP request per query
+
+Every exchange builds an `http.Request` from the upstream's request template, writes its own query string
+(`dns=<base64 of the query, id 0>`) into the request's URL and hands the request to the `http.RoundTripper`.
+The transport reads the URL when it serialises the request, which may be long after `RoundTrip` was entered
+(connection dial, TLS handshake, stream slot) and after any number of other exchanges have built theirs.
+`perCall` (regenerated: `Gen.Facts.c01DohRequestPerCall`): the URL written into belongs to this call alone;
+otherwise it is the one URL of the template, shared by all calls of the upstream. Calls are numbered; the
+server answers the query it finds in the request, the reply travels back on that request. -/
+
+structure Doh where
+  tmpl : Option Nat := none                    -- whose query string the URL of the template holds
+  own : Nat → Option Nat := fun _ => none      -- whose query string the URL private to call c holds
+  built : List Nat := []                       -- calls that have built their request
+  log : List (Nat × Nat) := []                 -- (call the request belongs to, call whose query the server found in it)
+
+inductive DLabel where
+  | build (c : Nat)      -- call c builds its request and writes its query string
+  | serve (c : Nat)      -- the transport serialises c's request; the server answers what it carries; c gets that reply
+  deriving DecidableEq, Repr
+
+def Doh.step (perCall : Bool) (s : Doh) : DLabel → Option Doh
+  | .build c =>
+    if perCall then some { s with own := upd s.own c (some c), built := c :: s.built }
+    else some { s with tmpl := some c, built := c :: s.built }
+  | .serve c =>
+    if s.built.contains c then
+      match (if perCall then s.own c else s.tmpl) with
+      | some o => some { s with log := (c, o) :: s.log }
+      | none => none
+    else none
+
+def Doh.run (perCall : Bool) : Doh → List DLabel → Option Doh
+  | s, [] => some s
+  | s, l :: ls => match s.step perCall l with
+    | none => none
+    | some s' => Doh.run perCall s' ls
+
+structure Doh.Inv (s : Doh) : Prop where
+  own : ∀ c o, s.own c = some o → o = c
+  log : ∀ p ∈ s.log, p.1 = p.2
+
 /-! ### non-pipelined reused connection -/
 
 structure Reuse where
